@@ -61,4 +61,21 @@ theorem C16_connected (pc : Bool) (rows : List EdgeRow) (th : CycThresh)
 direction it was asked for, the re-labelling the caller's thresholds. -/
 theorem C16_routing : ∀ r ∈ Routing.edges, Routing.holds Slots.routes r = true := by decide +kernel
 
+/-- KNOWN FINDING (DESIGN.md 14a, `known_findings.json`), stated about the model. `recompute_edge` hands a three-row slice to `compute_amp_consistency`, which
+recognises a peak-centred table ONLY by its `sample_peak` column; for a peak-centred table WITHOUT sample columns the code therefore evaluates
+`recomputeEdges false`. On this six-cycle table (one burst, rows 2-3) that is NOT the edge recomputation of its true centring: the cycle before the burst
+gets consistency 1/2 instead of 1/4 and, with an amplitude-consistency threshold of 2/5, joins the burst although the specification leaves it out.
+`./check C16` replays such tables on the real code (one generated table in five) and reports them as KNOWN-FINDING exactly when the implementation
+returns what `recomputeEdges false` / `editedSpec false` predict. -/
+def findingRows : List EdgeRow :=
+  [⟨1, 1, 5, some (1/2), some 1, .nan, .nan, false⟩, ⟨2, 1, 5, some (1/2), some 1, .fin (1/2), .fin 1, false⟩, ⟨4, 4, 5, some (1/2), some 1, .fin 1, .fin 1, true⟩,
+   ⟨4, 4, 5, some (1/2), some 1, .fin 1, .fin 1, true⟩, ⟨4, 2, 5, some (1/2), some 1, .fin (1/2), .fin 1, false⟩, ⟨1, 1, 5, some (1/2), some 1, .nan, .nan, false⟩]
+
+theorem C16_known_finding_witness :
+    ((recomputeEdges true findingRows ⟨0, 2/5, 1/2, 1/2, 2⟩).map fun rs => rs.map fun r => (r.ampCons, r.isBurst)) =
+      .ok [(.nan, false), (.fin (1/4), false), (.fin 1, true), (.fin 1, true), (.fin (1/2), true), (.nan, false)] ∧
+    ((recomputeEdges false findingRows ⟨0, 2/5, 1/2, 1/2, 2⟩).map fun rs => rs.map fun r => (r.ampCons, r.isBurst)) =
+      .ok [(.nan, false), (.fin (1/2), true), (.fin 1, true), (.fin 1, true), (.fin (1/2), true), (.nan, false)] := by
+  decide +kernel
+
 end Bycycle
